@@ -109,6 +109,14 @@ def run(ctx) -> None:
                     z[k] = None
         dens_case(ctx, rho, z, rng.choice(THR), rng.choice(THR), kind, "rand")
 
+    if ctx.shard == 0:
+        n = 70001
+        rho = [1025.0 + 0.001 * k for k in range(n)]
+        z = [float(k) for k in range(n)]
+        for b in (4096, 16384, 32768, 65536):
+            rho[b] -= 2.0
+            z[b + 3] = None
+        dens_case(ctx, rho, z, -0.5, -1.5, "down", "huge")
     # pressure_increasing_test
     def pres_case(p, carrier, tag) -> None:
         adm = models.pressure_increasing(p)
